@@ -5,8 +5,12 @@ NoLoss, NoResurrection) and Retention.tla (only the head of the creation-ordered
 Binding: every crash state of the model is materialised from real files (with a missing / valid /
 corrupt / truncated .frac-cache) and loaded by a real store; real maintenance passes with a small
 TotalSize are recorded through the verif hooks and validated against LifecycleTrace.tla and
-Retention.tla (incl. the deletion of an active fraction)."""
+Retention.tla (incl. the deletion of an active fraction).  Whole-store histories (Store.tla /
+StoreTrace.tla, checks/_store.py): real store processes run seeded random histories of bulks, rotation,
+background seals (some parked so that a newer seal overtakes an older one), retention, graceful stops
+and process deaths at random hook points; every recorded history must be a behaviour of Store.tla."""
 from checks import _lifecycle as lc
+from checks import _store
 
 LEVEL = "model_checking"
 
@@ -16,12 +20,15 @@ def run(ctx):
     cases = lc.states(ctx, lambda c: True)
     summ = lc.replay_states(ctx, cases, "lifecycle")
     ntr, nev = lc.traces(ctx, "lifecycle", with_retention=True, rounds=10 if ctx.quick() else 40)
-    ctx.cov["traces_validated_against_impl"] = summ["cases"] + ntr
-    ctx.cov["evaluations"] = summ["evals"] + nev
+    _store.design(ctx)
+    sruns, sev = _store.histories(ctx, "lifecycle", runs=120 if ctx.quick() else 2500, scenario_runs=2 if ctx.quick() else 8)
+    ctx.cov["traces_validated_against_impl"] = summ["cases"] + ntr + sruns
+    ctx.cov["evaluations"] = summ["evals"] + nev + sev
     ctx.cov["distinct_nontrivial"] = summ["nontrivial"]
     ctx.cov["exhaustive"] = True
     ctx.cov["rule"] = ("every crash state of Lifecycle.tla (one fraction: creation, ingest, seal, release, deletion of a sealed and of an active fraction; both "
                        "SkipSortDocs modes; <=2 crashes) next to an untouched sealed neighbour, .frac-cache in {missing, valid, corrupt, truncated}; started twice; "
+                       "whole-store histories: 120 (thorough 2500) seeded runs of 4 store processes each, killed at random hook points, validated against StoreTrace.tla; "
                        "retention: real maintenance passes (FracSize 1, TotalSize ~3 KB) over 10 (thorough 40) rounds recorded and validated; non-trivial = states of a fraction with data")
     ctx.assumptions += ["file operations are atomic and durable in program order",
                         "a stale .frac-cache is exercised as valid-but-older and truncated files; entries for other fraction names only",
